@@ -278,3 +278,11 @@ for _o in list(OBLIGATIONS):
         _u.bounds = _o.bounds + "; run with CBMC's standard checks (array bounds, pointer validity incl. use after free, signed overflow, undefined shifts, division by zero) in addition to the functional assertions"
         _u.outside = list(_o.outside) + ["pointer-overflow (forming an out-of-bounds pointer without dereferencing it) is not checked", "decisions on uninitialised memory are visible only as functional failures of the twin obligation"]
         OBLIGATIONS.append(_u)
+
+add("emit_step", "h_emit.c", "h_emit_step", {"C09": "quick", "C05": "quick", "C06": "quick", "C01": "quick"}, defines=["-DNB=4", "-DVMAX=2", "-DMB=3"], extra_src=["crctab.c"],
+    cbmc=["--unwind", "14", "--unwindset", "emit.0:4,emit.1:4,emit.2:4,emit.3:4,emit.4:5"], backend="kissat", timeout=600, mem_gb=6, functions=EMIT_FUNCS,
+    witnesses=["suspended_with_fresh_byte_pending", "suspended_inside_run_expansion", "suspended_before_fourth_equal_byte", "block_finished", "missing_run_length"],
+    bounds="ONE emit() call from each of the six resume states with arbitrary pending/previous bytes, CRC, remaining count 0..4 and IBWT list of 4 entries (byte values 0..2), output buffer of 1..3 bytes; "
+           "inductive step: any sequence of buffers follows",
+    assumptions=["the six resume states are interpreted as (pending byte, previous byte, run length so far, copies left) - pre-state constructor of h_emit_step"],
+    outside=["count bytes above 2 / buffers above 3 bytes per call (loop bodies repeat)"])
